@@ -4718,6 +4718,11 @@ class ResponseFuture(object):
         self._event.clear()
         self._final_result = _NOT_SET
         self._final_exception = None
+        # the timer of the previous page was cancelled when that page completed;
+        # each page fetch gets its own timeout, counted from now
+        self._cancel_timer()
+        self._timer = None
+        self._start_time = time.time()
         self._start_timer()
         self.send_request()
 
